@@ -44,6 +44,7 @@ type FuncContract struct {
 	Unroll     map[int]int
 	Safe       map[string]bool
 	Axiomatic  []int        // 1-based indices of ensures clauses exported as quantified axioms where the (pure) function is applied inside contract expressions
+	Spine      map[int]bool // freshspine rK: only the container of the K-th result must be newly allocated
 	Fresh      map[int]bool // result indices claimed to share no memory with inputs (ownership rule)
 	GhostVars  []SpecParam         // ghost variables: name, Go type
 	GhostCall  map[string][]Clause // callee text -> ghost assignments 'lhs = rhs' executed at each such call (after its callreq)
@@ -265,13 +266,20 @@ func (pc *PkgContracts) parseFile(path string) error {
 					}
 					cur.Axiomatic = append(cur.Axiomatic, idx)
 				}
-			case "fresh":
+			case "fresh", "freshspine":
 				for _, k := range strings.FieldsFunc(rest, func(r rune) bool { return r == ',' || r == ' ' }) {
 					idx := 0
 					if k != "result" {
 						if _, err := fmt.Sscanf(k, "r%d", &idx); err != nil {
 							return fmt.Errorf("%s:%d: fresh wants result or rN, got %q", path, l.line, k)
 						}
+					}
+					if word == "freshspine" {
+						if cur.Spine == nil {
+							cur.Spine = map[int]bool{}
+						}
+						cur.Spine[idx] = true
+						continue
 					}
 					if cur.Fresh == nil {
 						cur.Fresh = map[int]bool{}
